@@ -385,7 +385,7 @@ def run_native(repo, nhs, logpath):
 
 def native_failure_excerpt(out, name):
     m = re.search(r'---- \S*' + re.escape(name) + r' stdout ----\n(.*?)(?=\n---- |\nfailures:)', out, re.S)
-    return (m.group(1).strip() if m else 'test failed')[-1500:]
+    return (m.group(1).strip() if m else 'test failed')
 
 
 # ------------------------------------------------------------------ main
@@ -609,7 +609,7 @@ def main(argv):
                         rp = os.path.join(OUT_DIR, 'replay', f'{prop}.{h.name}.json')
                         os.makedirs(os.path.dirname(rp), exist_ok=True)
                         json.dump({'property': prop, 'obligation': h.id, 'harness': h.fq, 'unit': h.unit.name, 'engine': 'native', 'text': h.text,
-                                   'failed_checks': rec['failed_checks'], 'native_replay': 'reproduced', 'native_output': msg, 'replay_cmd': ncmd}, open(rp, 'w'), indent=1)
+                                   'failed_checks': rec['failed_checks'], 'native_replay': 'reproduced', 'native_output': msg[:6000], 'replay_cmd': ncmd}, open(rp, 'w'), indent=1)
                         rec['replay'] = rp
                         rec['native_replay'] = 'reproduced'
                         violations.append(rec)
